@@ -127,6 +127,9 @@ func cmdVerify(args []string) {
 			stat[ob.Status]++
 			if ob.Status != "discharged" || *verbose {
 				fmt.Printf("   %-10s %-60s %s %dms  %s\n", ob.Status, ob.Name, ob.Solver, ob.Ms, ob.Desc)
+				if ob.Static && ob.Status != "discharged" {
+					fmt.Println("      ", ob.Output)
+				}
 				if ob.Status == "refuted" && *verbose {
 					fmt.Println(firstLines(ob.Output, 40))
 				}
